@@ -423,11 +423,136 @@ func c04markerStr(o c04obs) string {
 	return c04fromID(o.marker).String()
 }
 
+// ---------------------------------------------------------------- chained caches
+
+// c04qOfCtx reads the question a plugin sees back into the harness coordinates.
+func c04qOfCtx(qc *query_context.Context) (c04q, bool) {
+	m := qc.Q()
+	if len(m.Question) != 1 {
+		return c04q{}, false
+	}
+	qu := m.Question[0]
+	n := -1
+	for i := range c04names {
+		if c04names[i].pres == qu.Name {
+			n = i
+			break
+		}
+	}
+	if n < 0 {
+		return c04q{}, false
+	}
+	var f uint8
+	if m.AuthenticatedData {
+		f |= 1
+	}
+	if m.CheckingDisabled {
+		f |= 2
+	}
+	if o := qc.QOpt(); o != nil && o.Do() {
+		f |= 4
+	}
+	return c04q{N: n, T: qu.Qtype, C: qu.Qclass, F: f}, true
+}
+
+// c04fork stands for the in-tree plugins that run the rest of the chain for a
+// question of their own before (prefer_ipv4 / prefer_ipv6: a copy of the
+// context with the other address type) or instead of the client's (redirect:
+// another name): the rest of the chain first sees a copy of the context asking
+// for type T^fork.xor, then the client's own context.
+type c04fork struct{ xor uint16 }
+
+func (f c04fork) Exec(ctx context.Context, qCtx *query_context.Context, next sequence.ChainWalker) error {
+	cp := qCtx.Copy()
+	cp.Q().Question[0].Qtype ^= f.xor
+	if err := next.ExecNext(ctx, cp); err != nil {
+		return err
+	}
+	return next.ExecNext(ctx, qCtx)
+}
+
+// c04guard wraps the second cache: whatever response it ends with (hit, or the
+// upstream's answer on a miss) must have been produced for the question that
+// reached it.
+type c04guard struct {
+	inner *Cache
+	seen  func(at c04q, o c04obs)
+}
+
+func (g c04guard) Exec(ctx context.Context, qCtx *query_context.Context, next sequence.ChainWalker) error {
+	at, ok := c04qOfCtx(qCtx)
+	err := g.inner.Exec(ctx, qCtx, next)
+	if ok && err == nil {
+		var o c04obs
+		if r := qCtx.R(); r != nil {
+			o.hasResp = true
+			o.marker, o.markerOK = c04marker(r)
+			o.fromCache = true
+		}
+		g.seen(at, o)
+	}
+	return err
+}
+
+// c04chained runs the queries through cache A -> fork -> cache B -> upstream.
+func (s *c04state) chained(qs []c04q, xor uint16, out func(string)) (execs int64) {
+	a, b := NewCache(&Args{Size: 1024}, Opts{}), NewCache(&Args{Size: 1024}, Opts{})
+	defer a.Close()
+	defer b.Close()
+	for i, q := range qs {
+		w := c04wireQuery(uint16(i), c04names[q.N].wire, q.T, q.C, q.F&1 != 0, q.F&2 != 0, 0, false, 1)
+		qCtx, err := c04ctx(w, q.F&4 != 0)
+		if err != nil {
+			continue
+		}
+		up := sequence.ExecutableFunc(func(_ context.Context, qc *query_context.Context) error {
+			if qc.R() != nil {
+				return nil
+			}
+			at, ok := c04qOfCtx(qc)
+			if !ok {
+				return nil
+			}
+			resp := new(dns.Msg)
+			resp.SetReply(qc.Q())
+			resp.Answer = append(resp.Answer, &dns.TXT{Hdr: dns.RR_Header{Name: qc.Q().Question[0].Name, Rrtype: dns.TypeTXT, Class: dns.ClassINET, Ttl: 1000000},
+				Txt: []string{strconv.FormatUint(at.id(), 10)}})
+			qc.SetResponse(resp)
+			return nil
+		})
+		guard := c04guard{inner: b, seen: func(at c04q, o c04obs) {
+			out("second-cache/" + s.check("chained-caches", at, o))
+		}}
+		next := sequence.NewChainWalker([]*sequence.ChainNode{{RE: c04fork{xor}}, {RE: guard}, {E: up}}, nil)
+		execs += 3
+		func() {
+			defer func() {
+				if p := recover(); p != nil && s.res.Infra == "" {
+					s.res.Infra = fmt.Sprintf("chained-caches: panic on query %v: %v", q, p)
+				}
+			}()
+			if err := a.Exec(context.Background(), qCtx, next); err != nil && s.res.Infra == "" {
+				s.res.Infra = fmt.Sprintf("chained-caches: Exec failed on query %v: %v", q, err)
+			}
+		}()
+		var o c04obs
+		if r := qCtx.R(); r != nil {
+			o.hasResp = true
+			o.marker, o.markerOK = c04marker(r)
+			o.fromCache = true
+		}
+		out("client/" + s.check("chained-caches", q, o))
+	}
+	return execs
+}
+
 // ---------------------------------------------------------------- the check
 
 type c04pairJSON struct {
 	A c04qJSON `json:"a"`
 	B c04qJSON `json:"b"`
+	// Chained: B was asked (alternating with A's type) at cache -> fork -> cache -> upstream
+	Chained bool `json:"chained,omitempty"`
 }
 
 type c04state struct {
@@ -462,6 +587,9 @@ func (s *c04state) check(scn string, q c04q, o c04obs) string {
 		return "miss-forwarded"
 	}
 	kind := c04kind(src, q)
+	if scn == "chained-caches" {
+		kind = "chained-caches/" + kind
+	}
 	if _, ok := s.foreign[kind]; !ok {
 		s.foreign[kind] = [2]c04q{src, q}
 	}
@@ -793,6 +921,34 @@ func TestVerifC04(t *testing.T) {
 			}
 		}
 	}
+	// B5: two caches in one sequence with a plugin between them that runs the rest
+	// of the chain for another question first (the shape of prefer_ipv4/6 and
+	// redirect): what the second cache serves must belong to the question it sees.
+	b5names := []int{0, 2, 4}
+	b5xor := []uint16{1 ^ 28, 1, 0x8000}
+	if thorough {
+		b5names = []int{0, 1, 2, 3, 4, 5, 8, 9}
+		b5xor = []uint16{1 ^ 28, 1, 2, 0x0100, 0x8000, 0xffff}
+	}
+	res.Bounds["B5.chained_caches"] = fmt.Sprintf("cache -> fork(type xor %v) -> cache -> upstream; %d names x types {1,28,255} x classes {1,3} x 8 flags; each base asked twice, alternating with its forked twin", b5xor, len(b5names))
+	for _, n := range b5names {
+		for _, ty := range []uint16{1, 28, 255} {
+			for _, c := range []uint16{1, 3} {
+				for f := uint8(0); f < 8; f++ {
+					for _, x := range b5xor {
+						if !mine() || expired("all chained-cache groups were done") {
+							continue
+						}
+						q := c04q{N: n, T: ty, C: c, F: f}
+						tw := q
+						tw.T ^= x
+						execs += s.chained([]c04q{q, tw, q, tw}, x, func(k string) { bOut("chained-caches", k) })
+						res.States += 4
+					}
+				}
+			}
+		}
+	}
 	// B4: the bypass rule (QR set / opcode != QUERY / != 1 question) is not part of
 	// the statement of C04: observed and classified only, never a violation.
 	for opcode := 0; opcode < 16; opcode++ {
@@ -894,6 +1050,11 @@ func TestVerifC04(t *testing.T) {
 				continue
 			}
 		}
+		if strings.HasPrefix(k, "chained-caches/") {
+			res.ViolateInput("exec/foreign-answer:"+k, fmt.Sprintf("two cache plugins in one sequence with a plugin between them that runs the rest of the chain for another question first (cache -> fork -> cache -> upstream): "+
+				"a query was answered with the cached answer of a different question: stored for %v, served to %v", p[0], p[1]), c04pairJSON{A: p[0].json(), B: p[1].json(), Chained: true})
+			continue
+		}
 		_, d1, _ := c04pairRun(p[0], p[1])
 		_, d2, _ := c04pairRun(p[1], p[0])
 		c04violate(res, p, "exec/foreign-answer:"+k,
@@ -947,6 +1108,19 @@ func c04replay(t *testing.T, in json.RawMessage) {
 	if err1 != nil || err2 != nil {
 		fmt.Println("INFRA: bad replay input:", err1, err2)
 		t.Fatal("bad input")
+	}
+	if p.Chained {
+		st := &c04state{res: vr.New("C04", vr.Env{}), foreign: map[string][2]c04q{}}
+		tw := b
+		tw.T = a.T
+		fmt.Printf("cache -> fork(type xor %#x) -> cache -> upstream; queries %v, %v, %v, %v\n", a.T^b.T, b, tw, b, tw)
+		st.chained([]c04q{b, tw, b, tw}, a.T^b.T, func(k string) { fmt.Println("   ", k) })
+		if len(st.foreign) > 0 {
+			fmt.Println("REPLAY-VIOLATION property=C04 a cached answer was served to a different question in the chained-caches scenario")
+		} else {
+			fmt.Println("REPLAY-OK: every response belongs to the question its cache saw")
+		}
+		return
 	}
 	k := c04newKeyer()
 	ka, kb := k.key(a), k.key(b)
